@@ -212,6 +212,7 @@ func c11Check(c faultCase, info *vlib.Info) *vlib.Failure {
 			spans = append(spans, r.Spans[d.ID])
 		}
 	})
+	spans = append(spans, pastedBodySpans(c.Doc, r, c.Fault.Offenders)...)
 	if strings.HasPrefix(c.Fault.Kind, "omit-param-") {
 		switch strings.TrimPrefix(c.Fault.Kind, "omit-param-") {
 		case "TYPE", "ENUM", "TAG", "MACRO", "SERVER":
